@@ -205,6 +205,19 @@ CHECKS["C09"] = dict(
     modelled="only the syntactically extracted locking discipline of four locations; library internals, other locations and the Go "
              "memory model are explored by the race detector, not proved.")
 
+CHECKS["C11"] = dict(
+    text="PARTIAL. Theorems: from the regenerated cleanup facts (deferred calls of both transport handlers, calls of Tunnel.Close, "
+         "deferred calls of the relay) every resource a tunnel can hold at any point of the exchange - backend connection, relay "
+         "goroutine, inbound and outbound client connections, registry entry, gauge - is released when the packet loop returns; "
+         "and every way the client side ends (read error, unframeable bytes, out-of-order packet, channel close) makes the packet "
+         "loop return (Processor model). The source text of the cleanup is pinned. The real handlers run all 96 cells (8 points x "
+         "7 ways of ending x 2 transports) and within 2 s must show EOF at the backend, closed client-facing connections, "
+         "registry size, gauges and gateway goroutine count back at the baseline. Known finding: legacy OUT closed with a silent "
+         "host.",
+    design="7/C11", technique="Coq proof (cleanup completeness on translator-extracted facts + termination of the packet loop per end cause) + gateway-level fault enumeration",
+    modelled="handleWebsocketProtocol/handleLegacyProtocol defers, Tunnel.Close, forward's exit rule (facts); bounded time, goroutine "
+             "termination and socket states are measured, not proved.")
+
 NOT_YET = {}
 
 
